@@ -57,7 +57,7 @@ func TestC01(t *testing.T) {
 		ID: "C01",
 		Cfg: core.SimConfig{
 			Prop:   "C01",
-			Owned:  core.Own(core.CatComponents, core.CatInvIndex, core.CatInvTable, core.CatPanicMove, core.CatObserve),
+			Owned:  core.Own(core.CatComponents, core.CatInvIndex, core.CatInvTable, core.CatPanicMove, core.CatObserve, core.CatEventValues),
 			Verify: core.FullVerify,
 		},
 		Mix:      mix,
